@@ -63,6 +63,25 @@ def handle (st : St) (n : Nat) (line : String) : Result := Id.run do
         let f2 := fail f.st n "C17" s!"configured log {(g "log").getD "?"} has a feeder type but is never fed after start-up: the feeder list and the witness map do not describe the same logs"
         return { st := f2.st, out := f.out ++ f2.out }
       return f
+  | "OMD" :: rest =>
+    let g := field rest
+    let st := st.bump "omni.distributor"
+    let mut st := st
+    let mut outs : List String := []
+    if (g "pushonly_asked").getD "0" != "1" then
+      let f := fail st n "C17" s!"{(g "store").getD "?"}: a configured log with Feeder none (not last in the file) is missing from the log list handed to the distributor: the witness map and the feeder/distributor list do not describe the same logs"
+      st := f.st; outs := outs ++ f.out
+    if (g "fed_logs_pushed").getD "0" != (g "of").getD "?" then
+      let f := fail st n "C17" s!"{(g "store").getD "?"}: only {(g "fed_logs_pushed").getD "?"} of {(g "of").getD "?"} fed logs were pushed to the distributor"
+      st := f.st; outs := outs ++ f.out
+    if outs.isEmpty then return { st := { st with nOK := st.nOK + 1 }, out := [s!"OK {n}"] }
+    else return { st, out := outs }
+  | "UC" :: rest =>
+    let g := field rest
+    let st := st.bump s!"cancel.{(g "store").getD "?"}.{(g "kind").getD "?"}"
+    if (g "refused").getD "0" == "1" && (g "allpre").getD "a" != (g "allafter").getD "b" then
+      return fail st n "C03" s!"{(g "kind").getD "?"} update on {(g "store").getD "?"}: refused when the caller's context ended (parked before {(g "at").getD "?"}), but the witness's state changed afterwards: the refused update went on and committed"
+    else return { st := { st with nOK := st.nOK + 1 }, out := [s!"OK {n}"] }
   | "E2E" :: rest =>
     let g := field rest
     let st := st.bump "bastion.e2e.connect"
